@@ -120,6 +120,11 @@ fn lacks_migrate(reg_index: usize) -> bool {
 fn code_for(reg_index: usize) -> Box<dyn cw_multi_test::Contract<Empty, Empty>> {
     let p = Puppet { tag: (reg_index % 250) as u8 };
     if lacks_migrate(reg_index) {
+        // alternately a hand-written Contract whose migrate refuses, and a ContractWrapper built
+        // without any migrate step
+        if reg_index % 2 == 1 {
+            return wrapped_puppet_without_migrate();
+        }
         Box::new(NoMigrate(p))
     } else {
         Box::new(p)
